@@ -299,6 +299,16 @@ Section Model.
     else if Nat.ltb (length seq) (nfull + (if hasp then 1 else 0)) then None
     else if negb (Bool.eqb hasp (match spart sm with Some _ => true | None => false end)) then None
     else Some {| sc := c; sdata := firstn nfull seq; spart := if hasp then nth_error seq nfull else None |}.
+
+  (* serialize then deserialize of the whole sketch: an empty sketch (n = 0) is written as its first 8 bytes only (k),
+     a non-empty one as k, n, cumulative weight, maximum weight, rho and the sample *)
+  Definition sk_reread (sk : sketch) : option sketch :=
+    if sk_n sk =? 0 then Some (sketch_empty (sk_k sk))
+    else match reread (sk_smp sk) with
+         | Some sm' => Some {| sk_k := sk_k sk; sk_n := sk_n sk; sk_cw := sk_cw sk; sk_wmax := sk_wmax sk;
+                               sk_rho := sk_rho sk; sk_smp := sm' |}
+         | None => None
+         end.
 End Model.
 
 Arguments sc {NO Item}. Arguments sdata {NO Item}. Arguments spart {NO Item}.
@@ -488,17 +498,10 @@ Definition step (s : list (Z * full)) (o e : line) : list (Z * full) * outline :
   | 7 :: r :: r2 :: _ =>                            (* serialize r, deserialize into r2, report r2's getters *)
       match reg_get s r with
       | Some f =>
-          let sk := f_sk f in
-          if sk_n sk =? 0 then
-            let f' := {| f_sk := sketch_empty FloatOps Z (sk_k sk); f_g := f_g f |} in
-            (reg_set s r2 f', (getters (f_sk f'), []))
-          else match reread FloatOps Z (sk_smp sk) with
-               | Some sm' =>
-                   let sk' := {| sk_k := sk_k sk; sk_n := sk_n sk; sk_cw := sk_cw sk; sk_wmax := sk_wmax sk;
-                                 sk_rho := sk_rho sk; sk_smp := sm' |} in
-                   (reg_set s r2 {| f_sk := sk'; f_g := f_g f |}, (getters sk', []))
-               | None => (s, (refused, spec_line f))
-               end
+          match sk_reread FloatOps Z (f_sk f) with
+          | Some sk' => (reg_set s r2 {| f_sk := sk'; f_g := f_g f |}, (getters sk', []))
+          | None => (s, (refused, spec_line f))
+          end
       | None => (s, (refused, []))
       end
   | 8 :: r :: _ =>                                  (* reset *)
